@@ -3,9 +3,15 @@
 constants  Keywords (inspect.signature of the pool / connection constructors), KeyFields (PoolKey._fields),
            IdentityKw, ManagerOwn, SslKeywords are extracted from the tree under test AT RUN TIME and written
            into the generated cfg; the per-keyword value table below contributes CloneKw / DefectTwinKw /
-           CtorDefaultKw, computed from the actual Python values (==, hash, constructor defaults).
+           CtorDefaultKw / StructKw / ValueEqKw / NVof, computed from the actual Python values (==, hash,
+           constructor defaults).  For STRUCTURED keywords (Retry, Timeout, ProxyConfig, Url, header / option dicts,
+           socket-option lists, SSLContext) the table is widened at run time by vh/c18values.py: base, separately
+           built clone and one variant per constructor parameter / field (inspect.signature of the value type).
 stage 1    TLC checks spec/PoolKey.tla on every scenario of spec/MC_PoolKey.tla: strict design (KnownDefects = {})
-           and the Model with the recorded deviations enabled (invariants hold up to the recorded signatures)
+           and the Model with the recorded deviations enabled (invariants hold up to the recorded signatures);
+           the Model with the seeded fault LossyValueCanonicalisation must be REFUTED (NoSharingAcrossSettings).
+           quick = a 1/2 slice (rotated by VERIF_SEED) of value pairs x supply forms x manager kinds for every
+           keyword; thorough = all ordered pairs of all values x all forms x all kinds.
 stage 2    TLC emits every finished behaviour: scenario + the Model's expected observations + the Rules' verdict
 stage 3    each scenario is replayed on a real PoolManager / ProxyManager (values supplied via constructor
            defaults, pool_kwargs or an explicit request context) and compared with the emitted expectation
@@ -18,15 +24,18 @@ from __future__ import annotations
 import inspect
 import json
 import multiprocessing as mp
+import os
 import random
 import re
 import socket
 import ssl
 import threading
 
-from . import known, tlc
+from . import c18values, known, tlc
 
-NV = 3
+NV = 3          # plain values per keyword; structured keywords have NV + 2 + #fields (see table())
+BASE, CLONE = NV + 1, NV + 2
+STRIDE = 2      # quick: 1 / STRIDE of the (value pair x combo) product, slice chosen by VERIF_SEED
 NOPORT = -1
 NOOV = -1
 OTHER = -1
@@ -85,13 +94,20 @@ def settings_of(c):
 
 
 # ------------------------------------------------------------------------------ the value table
-# Three non-None values per keyword.  Conventions the specification relies on (all verified at run time
+# Three plain non-None values per keyword.  Conventions the specification relies on (all verified at run time
 # against the actual objects, see table_meta): values are pairwise distinct settings, except that for the
 # keywords in CLONES value 3 is an equal-content / equal-meaning twin of value 1 (a second dict / list with
 # the same content, 0 for False); a value equal to a constructor's own default sits at index 1.
+# Structured keywords (c18values.bases()) get further values, derived from the value type at run time:
+# index BASE = a base object, CLONE = an equal-content object built separately, BASE+2.. = one variant per
+# constructor parameter / field, differing from the base in exactly that parameter.
 
 CLONES = {"headers", "_proxy_headers", "_socks_options", "socket_options", "block"}
 _TABLE = None
+_LABELS = {}            # kw -> labels of the values BASE.. ("base", "clone", parameter names)
+_STRUCT_SKIPPED = {}    # kw -> parameters / attributes of the value type that could not be varied
+_KINDS = {}             # kw -> how the variants were derived ("ctor" | "factory" | "value")
+_STRUCT_CLS = {}        # kw -> class whose instances are recognised by identity when a pool is read back
 
 
 def table():
@@ -141,8 +157,30 @@ def table():
                          ProxyConfig(None, True, "p.test", None)),
         UNKNOWN: (1, 2, 3),
     }
+    from urllib3.poolmanager import PoolKey
+    for kw, spec in c18values.bases().items():
+        if kw not in t or "key_" + kw not in PoolKey._fields:
+            continue        # a keyword the key rejects is never served: its three plain values show the rejection
+        vs, skipped = c18values.variants(kw, spec)
+        t[kw] = tuple(t[kw]) + tuple(v for _, v in vs)
+        _LABELS[kw] = [lab for lab, _ in vs]
+        _KINDS[kw] = spec[0]
+        if spec[0] in ("ctor", "factory"):
+            _STRUCT_CLS[kw] = spec[1] if spec[0] == "ctor" else ssl.SSLContext
+        _STRUCT_SKIPPED[kw] = skipped
     _TABLE = t
     return t
+
+
+def label_of(kw, i):
+    """Human-readable name of value i of kw (for reports)."""
+    table()
+    if i <= 0:
+        return "None" if i == 0 else "-"
+    if i <= NV or kw not in _LABELS:
+        return f"plain value {i}"
+    lab = _LABELS[kw][i - BASE]
+    return lab if lab in ("base", "clone") else f"base with {lab} changed"
 
 
 def values_for(kw):
@@ -167,18 +205,32 @@ def _pyeq(a, b):
 
 
 def table_meta(c):
-    """CloneKw / DefectTwinKw / CtorDefaultKw / KeyDefaultKw, computed from the actual objects."""
-    clone, twin, cdef = [], [], []
+    """CloneKw / DefectTwinKw / CtorDefaultKw / KeyDefaultKw / StructKw / ValueEqKw / NVof, computed from the actual objects."""
+    clone, twin, cdef, struct, valeq, nvof = [], [], [], [], [], {}
     for kw in settings_of(c):
         vs = values_for(kw)
-        if len(vs) != NV or any(v is None for v in vs):
-            raise tlc.MachineryError(f"value table for {kw} must hold {NV} non-None values")
-        eq = {(i, j) for i in range(1, NV + 1) for j in range(i + 1, NV + 1) if _pyeq(vs[i - 1], vs[j - 1])}
+        n = len(vs)
+        nvof[kw] = n
+        if any(v is None for v in vs) or (n != NV and (kw not in _LABELS or n < NV + 3 or n != NV + len(_LABELS[kw]))):
+            raise tlc.MachineryError(f"value table for {kw} must hold {NV} non-None values (+ base, clone, >= 1 field variant)")
+        eq = {(i, j) for i in range(1, n + 1) for j in range(i + 1, n + 1) if _pyeq(vs[i - 1], vs[j - 1])}
         want = {(1, 3)} if kw in CLONES else set()
+        if n > NV:
+            struct.append(kw)
+            if vs[BASE - 1] is vs[CLONE - 1]:
+                raise tlc.MachineryError(f"table: {kw} clone must be a distinct object")
+            if (BASE, CLONE) in eq:          # the type has value equality (dict, list, namedtuple)
+                valeq.append(kw)
+                want.add((BASE, CLONE))
         if kw in CLONES and (1, 3) not in eq:
             raise tlc.MachineryError(f"table: {kw} value 3 should equal value 1")
         if kw in CLONES and kw != "block" and vs[0] is vs[2]:
             raise tlc.MachineryError(f"table: {kw} value 3 must be a distinct object")
+        if _KINDS.get(kw) in ("ctor", "factory"):
+            # Objects of a class with a constructor (Retry, Timeout, SSLContext): that the variants are different settings
+            # was established from their STATE (c18values), not from ==.  Should the class define an __eq__ that conflates
+            # two of them, that is for TLC to judge on the traces (shared pool across differing settings), not a table error.
+            eq = {(i, j) for i, j in eq if j <= NV or (i, j) == (BASE, CLONE)}
         extra = eq - want
         if extra == {(1, 2)} and kw not in CLONES:
             twin.append(kw)     # two different settings that compare equal in Python
@@ -196,7 +248,13 @@ def table_meta(c):
         if values_for("blocksize")[0] != c["default_blocksize"] or "blocksize" not in cdef:
             raise tlc.MachineryError("table: blocksize value 1 must be poolmanager._DEFAULT_BLOCKSIZE and the constructor default")
         kdef.append("blocksize")
-    return {"CloneKw": clone, "DefectTwinKw": twin, "CtorDefaultKw": cdef, "KeyDefaultKw": kdef}
+    return {"CloneKw": clone, "DefectTwinKw": twin, "CtorDefaultKw": cdef, "KeyDefaultKw": kdef,
+            "StructKw": struct, "ValueEqKw": valeq, "NVof": nvof}
+
+
+def table_json(c, meta):
+    """The table file TLC reads (IOEnv.C18_TABLE): value counts and a stable index per keyword."""
+    return json.dumps({"nv": meta["NVof"], "idx": {kw: i for i, kw in enumerate(settings_of(c))}})
 
 
 # ------------------------------------------------------------------------------ cfg generation
@@ -206,28 +264,38 @@ def _set(xs):
 
 
 VIAS = ["url", "host", "context", "proxy"]
+TABLE_FILE = "c18_table.json"
 
 
-def constants_cfg(c, meta, known_defects, scenarios="MCScenarios", part=None, shard_kw=None, shard_via=None):
+def constants_cfg(c, meta, known_defects, mc=None, deviations=()):
+    """CONSTANTS section.  mc = None for the trace monitor, else the MC_PoolKey parameters
+    {part, breadth, rot, shard_kw, shard_via}."""
     lines = ["CONSTANTS"]
     for k in ("Keywords", "KeyFields", "IdentityKw", "ManagerOwn", "SslKeywords"):
         lines.append(f"  {k} = {_set(c[k])}")
-    for k in ("KeyDefaultKw", "CloneKw", "DefectTwinKw", "CtorDefaultKw"):
+    for k in ("KeyDefaultKw", "CloneKw", "DefectTwinKw", "CtorDefaultKw", "StructKw", "ValueEqKw"):
         lines.append(f"  {k} = {_set(meta[k])}")
     lines.append(f"  NV = {NV}")
+    lines.append("  NVof <- TableNV")
     lines.append(f"  KnownDefects = {_set(known_defects)}")
-    lines.append(f"  Scenarios <- {scenarios}" if scenarios else "  Scenarios = {}")
-    if part:
-        lines.append(f"  Part = {tlc.tla_str(part)}")
-        lines.append(f"  ShardKw = {_set(settings_of(c) if shard_kw is None else shard_kw)}")
-        lines.append(f"  ShardVia = {_set(VIAS if shard_via is None else shard_via)}")
+    lines.append(f"  Deviations = {_set(deviations)}")
+    lines.append("  Scenarios = {}")        # PoolKey!Init is not used: MC_PoolKey enumerates its own initial states
+    if mc:
+        lines.append(f"  Part = {tlc.tla_str(mc['part'])}")
+        lines.append(f"  ShardKw = {_set(settings_of(c) if mc.get('shard_kw') is None else mc['shard_kw'])}")
+        lines.append(f"  ShardVia = {_set(VIAS if mc.get('shard_via') is None else mc['shard_via'])}")
+        lines.append(f"  Breadth = {tlc.tla_str(mc['breadth'])}")
+        lines.append(f"  Stride = {STRIDE}")
+        lines.append(f"  Rot = {mc.get('rot', 0) % STRIDE}")
     return "\n".join(lines) + "\n"
 
 
-def mc_cfg(c, meta, known_defects, part, check=True, emit=False, shard_kw=None, shard_via=None):
-    s = "SPECIFICATION Spec\n" + constants_cfg(c, meta, known_defects, part=part, shard_kw=shard_kw, shard_via=shard_via)
+def mc_cfg(c, meta, known_defects, mc, check=True, emit=False, deviations=(), invariants=None):
+    s = "SPECIFICATION MCSpec\n" + constants_cfg(c, meta, known_defects, mc=mc, deviations=deviations)
     if check:
-        s += "".join(f"INVARIANT {i}\n" for i in INVARIANTS) + "".join(f"PROPERTY {p}\n" for p in PROPERTIES)
+        s += "".join(f"INVARIANT {i}\n" for i in (invariants or INVARIANTS))
+        if invariants is None:
+            s += "".join(f"PROPERTY {p}\n" for p in PROPERTIES)
     s += "CHECK_DEADLOCK FALSE\n"
     if emit:
         s += "ACTION_CONSTRAINT Emit\n"
@@ -235,7 +303,40 @@ def mc_cfg(c, meta, known_defects, part, check=True, emit=False, shard_kw=None, 
 
 
 def trace_cfg(c, meta, known_defects):
-    return "SPECIFICATION TSpec\n" + constants_cfg(c, meta, known_defects, scenarios=None) + "CHECK_DEADLOCK FALSE\n"
+    return "SPECIFICATION TSpec\n" + constants_cfg(c, meta, known_defects) + "CHECK_DEADLOCK FALSE\n"
+
+
+def run_mc(c, meta, cfg, **kw):
+    return tlc.run("MC_PoolKey", cfg, files={TABLE_FILE: table_json(c, meta)}, env={"C18_TABLE": TABLE_FILE}, **kw)
+
+
+def expected_scenarios(c, meta, breadth, rot):
+    """How many scenarios MC_PoolKey must enumerate - counted here independently (same formulas, in Python), so that a
+    scenario family that silently vanishes from the spec is a machinery failure."""
+    stride = STRIDE
+    n = 0
+
+    def mix(i):
+        return i // 4 + (i // 2) % 2 + i % 2 if i < 20 else (i - 20) // 2 + (i - 20) % 2
+    for ki, kw in enumerate(settings_of(c)):
+        nv = meta["NVof"][kw]
+        if breadth == "thorough":
+            pairs = [(a, b) for a in range(nv + 1) for b in range(nv + 1) if (a, b) != (0, 0)]
+        else:
+            pairs = [(a, b) for a in range(NV + 1) for b in range(NV + 1) if (a, b) != (0, 0)]
+            if kw in meta["StructKw"]:
+                pairs += [(BASE, v) for v in range(CLONE, nv + 1)] + [(v, BASE) for v in range(CLONE, nv + 1)]
+        for a, b in pairs:
+            n += sum(1 for i in range(26) if breadth == "thorough" or (mix(i) + a + b + ki + rot) % stride == 0)
+
+    def eidx(s, h, p):
+        return {"http": 0, "https": 1}.get(s, 2) + {"a.test": 0, "A.TEST": 1}.get(h, 2) + {NOPORT: 0, 0: 1, 80: 2}.get(p, 3)
+    groups = [[(s_, h, p) for s_ in ("http", "https", "HTTP") for h in ("a.test", "A.TEST", "b.test") for p in ports]
+              for ports in ((NOPORT, 0, 80, 443), (NOPORT, 0, 80, 443), (0, 80, 443))]
+    groups.append([(s_, h, p) for s_ in ("http", "https") for h in ("a.test", "b.test") for p in (NOPORT, 0, 80, 443)])
+    for g in groups:
+        n += sum(1 for e1 in g for e2 in g if breadth == "thorough" or (eidx(*e1) + eidx(*e2) + rot) % stride == 0)
+    return n
 
 
 # ------------------------------------------------------------------------------ driving the real code
@@ -271,10 +372,14 @@ def index_of(kw, obj):
     for i, v in enumerate(vs, 1):
         if obj is v:
             return i
+    cls = _STRUCT_CLS.get(kw)
     for i, v in enumerate(vs, 1):
         if kw == "timeout" and isinstance(obj, Timeout) and isinstance(v, (int, float)) and not isinstance(v, bool):
             if obj.connect_timeout == v and getattr(obj, "_read", None) == v:
                 return i
+        elif cls is not None and isinstance(v, cls):
+            continue                # Retry / Timeout / SSLContext objects are recognised by identity only: whatever == means
+                                    # for them in the tree under test must not decide which table value a pool "has"
         elif type(obj) is type(v) and obj == v:
             return i
     if kw in ("headers", "_proxy_headers") and hasattr(obj, "items") and not obj:
@@ -419,17 +524,19 @@ def compare_expected(obs, exp):
 # ------------------------------------------------------------------------------ workers
 
 _G = {}
+SELFTEST_PER_SHARD = 6
 
 
-def _init_worker(c, meta, kd):
-    _G["c"], _G["meta"], _G["kd"] = c, meta, kd
+def _init_worker(c, meta, kd, mc=None):
+    _G["c"], _G["meta"], _G["kd"], _G["mc"] = c, meta, kd, mc
     _G["ks"] = sorted(set(c["KeyFields"]) - set(c["IdentityKw"]))
     table()
 
 
 def validate_traces(traces, c, meta, kd):
-    r = tlc.run("PoolKey_Trace", trace_cfg(c, meta, kd), workers=1, files={"traces.json": json.dumps(traces)},
-                env={"TRACE_FILE": "traces.json"}, timeout=3600)
+    r = tlc.run("PoolKey_Trace", trace_cfg(c, meta, kd), workers=1,
+                files={"traces.json": json.dumps(traces), TABLE_FILE: table_json(c, meta)},
+                env={"TRACE_FILE": "traces.json", "C18_TABLE": TABLE_FILE}, timeout=3600)
     verdicts = tlc.tagged_tuples(r.out, "VERDICT")
     if len(verdicts) != len(traces) or sorted(v[0] for v in verdicts) != list(range(1, len(traces) + 1)):
         raise tlc.MachineryError(f"trace validation produced {len(verdicts)} verdicts for {len(traces)} traces\n{r.out[-2000:]}")
@@ -445,10 +552,38 @@ def _replay_shard(jobs):
         obs = execute(sc, ks)
         traces.append(to_trace(sc, obs))
         rows.append({"sc": sc, "diffs": compare_expected(obs, exp), "exp": exp, "obs": obs})
-    r, verdicts = validate_traces(traces, c, meta, kd)
+    # Monitor self-test, judged in the same TLC batch: a few of this shard's own traces (base vs field variant of a
+    # structured keyword, served by two pools) are re-submitted with the second observation CORRUPTED to say "served by
+    # the first request's pool".  TLC must reject every one of them with SharedAcrossSettings.
+    corrupted, origin = [], []
+    for k, (row, t) in enumerate(zip(rows, traces)):
+        tag = row["sc"]["tag"]
+        if (len(corrupted) < SELFTEST_PER_SHARD and tag[0] == "kw" and tag[6] in meta["StructKw"] and BASE in tag[7:9]
+                and max(tag[7:9]) > CLONE and row["exp"]["pairs"][0]["verdict"] == "MustDiffer"
+                and all(o["exc"] == "none" for o in row["obs"]) and row["obs"][0]["pool"] != row["obs"][1]["pool"]):
+            o1, o2 = row["obs"]
+            corrupted.append(dict(t, obs=[o1, dict(o2, pool=o1["pool"], conf=o1["conf"])]))
+            origin.append(k)
+    r, verdicts = validate_traces(traces + corrupted, c, meta, kd)
     for row, (tid, l, clause) in zip(rows, verdicts):
         row["verdict"], row["at"] = clause, l
-    return {"rows": rows, "events": sum(len(t["reqs"]) for t in traces), "distinct": r.distinct}
+    judged = [(v, k) for v, k in zip(verdicts[len(rows):], origin) if rows[k]["verdict"] == "ok"]   # original accepted
+    missed = [v for v, k in judged if v[2] != "SharedAcrossSettings"]
+    return {"rows": rows, "events": sum(len(t["reqs"]) for t in traces), "distinct": r.distinct,
+            "selftest": len(judged), "selftest_missed": missed}
+
+
+def _canary_job(kws):
+    """Stage 1, sensitivity: the Model with the seeded fault LossyValueCanonicalisation (the key is computed from a
+    projection of a structured value that forgets its last field) over the scenarios of the keywords kws.
+    TLC must refute NoSharingAcrossSettings."""
+    c, meta, kd = _G["c"], _G["meta"], _G["kd"]
+    mc = dict(_G["mc"], part="kw", shard_kw=list(kws), breadth="quick")
+    r = run_mc(c, meta, mc_cfg(c, meta, kd, mc, deviations=["LossyValueCanonicalisation"], invariants=["NoSharingAcrossSettings"]),
+               workers=1, timeout=1800, expect_fail=True)
+    m = re.search(r'tag \|-> <<("kw"[^>]*)>>', r.out)
+    return {"kws": list(kws), "violated": r.violated, "error": r.error, "distinct": r.distinct, "generated": r.generated,
+            "wall": round(r.wall, 2), "witness": json.loads("[" + m.group(1) + "]") if m else None, "tail": r.out[-1500:]}
 
 
 def random_scenario(rng, settings, c):
@@ -456,7 +591,11 @@ def random_scenario(rng, settings, c):
     mk = "proxy" if rng.random() < 0.2 else "plain"
     keyed = [k for k in settings if k in c["KeyFields"]]
     pick = lambda: rng.choice(keyed) if rng.random() < 0.93 else rng.choice(settings)   # mostly servable requests
-    dflt = {pick(): rng.randint(1, NV) for _ in range(rng.randint(0, 4))}
+    nvof = _G["meta"]["NVof"]
+    dflt = {}
+    for _ in range(rng.randint(0, 4)):
+        k = pick()
+        dflt[k] = rng.randint(1, nvof[k])
     few = rng.sample(keyed, 3)
     reqs = []
     for _ in range(rng.randint(2, 4)):
@@ -464,7 +603,7 @@ def random_scenario(rng, settings, c):
         ov = {}
         for _ in range(rng.randint(0, 3)):
             k = rng.choice(few) if rng.random() < 0.7 else pick()
-            ov[k] = rng.randint(0, NV)
+            ov[k] = rng.randint(0, nvof[k]) if rng.random() < 0.6 else rng.randint(0, min(nvof[k], CLONE))
         if via == "context":
             ov = {k: v for k, v in ov.items() if v != 0}
         scheme = rng.choice(["http", "https", "https"] + (["HTTP"] if mk == "plain" and rng.random() < 0.1 else []))
@@ -531,6 +670,9 @@ def judge(rep, row, findings):
             "PoolMisconfigured": "the pool serving the request is not configured as the request asked",
             "DefaultsAltered": "a per-request override changed the manager's connection_pool_kw",
             "UnexpectedException": "a request with only keyed keywords raised"}.get(v, v)
+    tag = row["sc"]["tag"]
+    if tag[0] == "kw":          # say which values these are (structured keywords: which constructor parameter differs)
+        what += f" [{tag[6]}: {label_of(tag[6], tag[7])} vs {label_of(tag[6], tag[8])}]"
     rep.violation(v, f"{what}; request {row['at']} of scenario {row['sc']['tag']}; observed {row['obs'][row['at'] - 1]}", case)
     return "violation"
 
@@ -552,15 +694,23 @@ def run(rep):
     findings = known.load("C18")
     # PortZero is not a finding but a modelled latitude (see judge()): the Model always reads port 0 as "no port"
     kd = sorted({f["match"]["sig"] for f in findings if f.get("match", {}).get("sig") in SIGS} | {"PortZero"})
+    J = max(1, int(os.environ.get("VERIF_JOBS") or os.cpu_count() or 4))
+    breadth = "quick" if quick else "thorough"
+    mcp = {"part": "all", "breadth": breadth, "rot": rep.seed % STRIDE}
     rep.rule = ("stage 2/3: every scenario TLC emits (keyword x ordered value pair x supply form x scheme x base x manager "
-                "kind; endpoint pairs over case / port variants) is executed on a real manager; a scenario is non-trivial "
-                "when its two requests differ in a keyword value or endpoint spelling (distinct tags); stage 4: the same "
-                "traces plus seeded random multi-keyword traces are judged by TLC")
-    rep.assumptions = ["value table: three distinct realistic values per keyword (vh/c18.py), equality facts computed from the objects",
+                "kind; for structured keywords the values include a base object, its separately built clone and one variant "
+                "per constructor parameter / field; endpoint pairs over case / port variants; quick = the slice (1 of " + str(STRIDE) + ") of this "
+                "product selected by VERIF_SEED, thorough = all of it) is executed on a real manager; a scenario is "
+                "non-trivial when its two requests differ in a keyword value or endpoint spelling (distinct tags); stage 4: "
+                "the same traces plus seeded random multi-keyword traces are judged by TLC")
+    rep.assumptions = ["value table: three distinct realistic plain values per keyword (vh/c18.py) + for structured keywords "
+                       "variants derived from the value type at run time (vh/c18values.py); equality facts computed from the objects",
                        "no connection is opened: pools are created and read back, connection kwargs captured via ConnectionCls",
                        "TLC 1.8 and CPython are trusted"]
     rep.extra["constants_from_code"] = {k: c[k] for k in ("Keywords", "KeyFields", "IdentityKw", "ManagerOwn", "SslKeywords")}
     rep.extra["constants_from_table"] = meta
+    rep.extra["structured_values"] = {kw: {"fields": _LABELS[kw][2:], "not_variable": _STRUCT_SKIPPED[kw],
+                                           "value_equality": kw in meta["ValueEqKw"]} for kw in meta["StructKw"]}
     rep.extra["classification"] = {
         "identity": c["IdentityKw"],
         "keyed": sorted(set(c["Keywords"]) & set(c["KeyFields"]) - set(c["IdentityKw"])),
@@ -568,106 +718,135 @@ def run(rep):
         "key_only": sorted(set(c["KeyFields"]) - set(c["Keywords"])),
         "accepted_by": c["accepted_by"]}
     rep.extra["known_defects_enabled_in_model"] = kd
+    rep.extra["breadth"] = {"tier": breadth, "stride": STRIDE if quick else 1, "slice": mcp["rot"] if quick else None, "jobs": J}
+    missing_struct = sorted(set(c18values.bases()) & set(c["KeyFields"]) - set(meta["StructKw"]))
+    if missing_struct or not {"retries", "timeout"} <= set(meta["StructKw"]):
+        raise tlc.MachineryError(f"structured keywords without derived variants: {missing_struct or 'retries/timeout'}")
+    want = expected_scenarios(c, meta, breadth, mcp["rot"])
 
-    # ---- stage 1 (strict design) runs beside stage 1' + 2 (Model with recorded deviations, emission)
-    res = {}
+    # ---- one process pool (J) for everything on the Python side; the seeded random leg and the sensitivity runs start
+    #      at once, stage 1 (strict design) runs beside stage 1' + 2 (Model with recorded deviations, emission)
+    nrand, per = (2000, 500) if quick else (60000, 3000)
+    canary_groups = [list(meta["StructKw"])] if quick else [[kw] for kw in meta["StructKw"]]
+    res, scenarios = {}, []
+    wtlc = max(1, J // 2)
 
-    def strict():
-        try:
-            res["strict"] = tlc.run("MC_PoolKey", mc_cfg(c, meta, [], "all"), workers=max(2, tlc.NCPU // 2), timeout=3600)
-        except BaseException as ex:   # re-raised in the main thread
-            res["strict"] = ex
+    def on_line(ln):
+        if not ln.startswith('<<"SC"'):
+            return False
+        if not ln.endswith('">>'):
+            raise tlc.MachineryError("truncated emission line: " + ln[:200])
+        scenarios.extend(tlc.tagged_json(ln, "SC"))
+        return True
 
-    th = threading.Thread(target=strict)
-    th.start()
-    emitted = {}
-    nk = 10
-    parts = [("kw", settings[i::nk], None) for i in range(nk)] + [("id", None, [v]) for v in VIAS]
+    def tlc_thread(name, fn):
+        def body():
+            try:
+                res[name] = fn()
+            except BaseException as ex:   # re-raised in the main thread
+                res[name] = ex
+        th = threading.Thread(target=body)
+        th.start()
+        return th
 
-    def emit_part(idx, part, skw, svia):
-        got = []
+    with mp.Pool(J, initializer=_init_worker, initargs=(c, meta, kd, mcp)) as pool:
+        def side_jobs():
+            return (pool.map_async(_random_shard, [(rep.seed * 100003 + i, per) for i in range(nrand // per)], chunksize=1),
+                    pool.map_async(_canary_job, canary_groups, chunksize=1))
+        a2, a3 = side_jobs()
+        ths = [tlc_thread("strict", lambda: run_mc(c, meta, mc_cfg(c, meta, [], mcp), workers=wtlc, heap="4g", timeout=3600)),
+               tlc_thread("model", lambda: run_mc(c, meta, mc_cfg(c, meta, kd, mcp, emit=True), workers=wtlc, heap="4g",
+                                                  on_line=on_line, timeout=3600))]
+        for th in ths:
+            th.join()
+        for v in res.values():
+            if isinstance(v, BaseException):
+                raise v
+        r0, r1 = res["strict"], res["model"]
+        rep.add_tlc(f"MC_PoolKey strict design (KnownDefects={{}}), Breadth={breadth}", r0)
+        if r0.violated:
+            rep.violation("DesignInvariant", f"TLC: {r0.violated} violated by the strict design model on the constants of this tree")
+        rep.add_tlc(f"MC_PoolKey Model with KnownDefects={kd} (+emission), Breadth={breadth}", r1)
+        rep.stage1[-1]["emitted"] = len(scenarios)
+        if r1.violated:
+            rep.violation("ModelInvariant", f"TLC: {r1.violated} violated by the Model (recorded deviations {kd})")
+        if r0.generated != r0.distinct or r1.generated != r1.distinct:
+            raise tlc.MachineryError(f"stage 1 generated {r0.generated}/{r1.generated} states for {r0.distinct}/{r1.distinct} distinct "
+                                     "ones: every scenario is a chain, so a scenario was enumerated twice")
+        if r0.distinct != r1.distinct:
+            raise tlc.MachineryError(f"strict run explored {r0.distinct} states, the Model run {r1.distinct}")
+        if len(scenarios) != want or r1.distinct != 7 * want:
+            raise tlc.MachineryError(f"TLC emitted {len(scenarios)} scenarios ({r1.distinct} states); the scenario space of this run "
+                                     f"has {want} (x 7 states)")
+        tags = {json.dumps(s["tag"]) for s in scenarios}
+        if len(tags) != len(scenarios):
+            raise tlc.MachineryError(f"emission: {len(scenarios)} behaviours but {len(tags)} distinct scenarios")
+        rep.extra["scenarios_emitted"] = len(scenarios)
 
-        def on_line(ln):
-            if not ln.startswith('<<"SC"'):
-                return False
-            got.extend(tlc.tagged_json(ln, "SC"))
-            return True
-        try:
-            r = tlc.run("MC_PoolKey", mc_cfg(c, meta, kd, part, check=True, emit=True, shard_kw=skw, shard_via=svia),
-                        workers=1, on_line=on_line, timeout=3600)
-            emitted[idx] = (r, got)
-        except BaseException as ex:
-            emitted[idx] = ex
+        # ---- stage 3 + 4
+        scenarios.sort(key=lambda s: json.dumps(s["tag"]))      # emission order depends on TLC's worker threads
+        rng = random.Random(rep.seed)
+        rng.shuffle(scenarios)
+        nshard = max(J, -(-len(scenarios) // 4000))
+        shards = [scenarios[i::nshard] for i in range(nshard)]
+        a1 = pool.map_async(_replay_shard, [s for s in shards if s], chunksize=1)
+        outs, routs, canaries = a1.get(), a2.get(), a3.get()
 
-    ths = [threading.Thread(target=emit_part, args=(i,) + p) for i, p in enumerate(parts)]
-    for t in ths:
-        t.start()
-    for t in ths + [th]:
-        t.join()
-    for v in list(emitted.values()) + [res["strict"]]:
-        if isinstance(v, BaseException):
-            raise v
-    r0 = res["strict"]
-    rep.add_tlc("MC_PoolKey strict design (KnownDefects={}), all scenarios", r0)
-    if r0.violated:
-        rep.violation("DesignInvariant", f"TLC: {r0.violated} violated by the strict design model on the constants of this tree")
-    scenarios = []
-    agg = {"distinct": 0, "generated": 0, "wall": 0.0, "depth": 0}
-    for idx, (part, skw, svia) in enumerate(parts):
-        r, got = emitted[idx]
-        agg["distinct"] += r.distinct
-        agg["generated"] += r.generated
-        agg["wall"] = max(agg["wall"], r.wall)
-        agg["depth"] = max(agg["depth"], r.depth)
-        if r.violated:
-            rep.violation("ModelInvariant", f"TLC: {r.violated} violated by the Model (recorded deviations {kd}) in shard {part} {skw or svia}")
-        scenarios += got
-    rep.states += agg["distinct"]
-    rep.transitions += agg["generated"]
-    rep.stage1.append({"run": f"MC_PoolKey Model with KnownDefects={kd} (+emission), {len(parts)} shards", "distinct_states": agg["distinct"],
-                       "states_generated": agg["generated"], "depth": agg["depth"], "wall_s": round(agg["wall"], 2),
-                       "emitted": len(scenarios)})
-    if r0.distinct != agg["distinct"]:
-        raise tlc.MachineryError(f"strict run explored {r0.distinct} states, the emission shards {agg['distinct']}: shards do not partition the scenarios")
-    if not scenarios:
-        raise tlc.MachineryError("TLC emitted no scenario")
-    tags = {json.dumps(s["tag"]) for s in scenarios}
-    if len(tags) != len(scenarios):
-        raise tlc.MachineryError(f"emission: {len(scenarios)} behaviours but {len(tags)} distinct scenarios")
-    kws_seen = {s["tag"][6] for s in scenarios if s["tag"][0] == "kw"}
-    if kws_seen != set(settings):
-        raise tlc.MachineryError(f"emission does not cover every keyword: missing {sorted(set(settings) - kws_seen)}")
-    rep.extra["scenarios_emitted"] = len(scenarios)
+    # ---- sensitivity of stage 1: the seeded fault must be refuted
+    for cn in canaries:
+        rep.states += cn["distinct"]
+        rep.transitions += cn["generated"]
+        if cn["violated"] != ["NoSharingAcrossSettings"]:
+            raise tlc.MachineryError(f"the Model with LossyValueCanonicalisation on {cn['kws']} was not refuted by "
+                                     f"NoSharingAcrossSettings (TLC: {cn['violated']} {cn['error']})\n{cn['tail']}")
+    rep.extra["deviations_refuted"] = [{"deviation": "LossyValueCanonicalisation", "keywords": cn["kws"],
+                                        "refuted_by": cn["violated"][0], "witness_scenario": cn["witness"], "wall_s": cn["wall"]}
+                                       for cn in canaries]
 
-    # ---- stage 3 + 4
-    rng = random.Random(rep.seed)
-    rng.shuffle(scenarios)
-    nshard = 16
-    shards = [scenarios[i::nshard] for i in range(nshard)]
-    nrand, per = (2000, 250) if quick else (60000, 2500)
-    with mp.Pool(16, initializer=_init_worker, initargs=(c, meta, kd)) as pool:
-        a1 = pool.map_async(_replay_shard, [s for s in shards if s])
-        a2 = pool.map_async(_random_shard, [(rep.seed * 100003 + i, per) for i in range(nrand // per)])
-        outs, routs = a1.get(), a2.get()
     tally = {"ok": 0, "known": 0, "drift": 0, "violation": 0}
     by_verdict, stage3_diff, replayed = {}, 0, 0
     verdict_classes = {"MustDiffer": 0, "MustShare": 0, "Either": 0, "n/a": 0}
+    differing, variants_seen, clones_seen = set(), set(), set()
+    selftest = missed = 0
     for o in outs:
         rep.traces += len(o["rows"])
         rep.evaluations += o["events"]
+        selftest += o["selftest"]
+        missed += len(o["selftest_missed"])
         for row in o["rows"]:
             replayed += 1
             stage3_diff += bool(row["diffs"])
+            tag = row["sc"]["tag"]
             for p in row["exp"]["pairs"]:
                 verdict_classes[p["verdict"]] += 1
+                if tag[0] == "kw" and tag[7] != tag[8]:
+                    differing.add(tag[6])
+                    if BASE in tag[7:9] and p["verdict"] == "MustDiffer" and max(tag[7:9]) > CLONE:
+                        variants_seen.add((tag[6], max(tag[7:9])))
+                    if sorted(tag[7:9]) == [BASE, CLONE] and p["verdict"] in ("MustShare", "Either"):
+                        clones_seen.add((tag[6], p["verdict"]))
             tally[judge(rep, row, findings)] += 1
             by_verdict[row["verdict"]] = by_verdict.get(row["verdict"], 0) + 1
             if any(p["verdict"] in ("MustDiffer", "MustShare") for p in row["exp"]["pairs"]):
                 rep.nontrivial.add(_nontrivial_key(row))
     if replayed != len(scenarios):
         raise tlc.MachineryError(f"{len(scenarios)} scenarios emitted but {replayed} replayed")
+    vacuity = []        # raised as a machinery failure at the end unless a violation was found (never silently green)
+    if differing != set(settings):
+        vacuity.append(f"keywords never exercised with two differing values: {sorted(set(settings) - differing)}")
+    want_variants = {(kw, v) for kw in meta["StructKw"] for v in range(CLONE + 1, meta["NVof"][kw] + 1)}
+    if variants_seen != want_variants:
+        vacuity.append("structured field variants never run against their base with verdict MustDiffer: "
+                       f"{sorted((kw, label_of(kw, v)) for kw, v in want_variants - variants_seen)}")
+    want_clones = {(kw, "MustShare" if kw in meta["ValueEqKw"] else "Either") for kw in meta["StructKw"]}
+    if not want_clones <= clones_seen or len(clones_seen) != len(want_clones):
+        vacuity.append(f"structured clones: expected {sorted(want_clones)}, exercised {sorted(clones_seen)}")
     if min(verdict_classes["MustDiffer"], verdict_classes["MustShare"], verdict_classes["Either"]) == 0:
-        raise tlc.MachineryError(f"a verdict class was never exercised: {verdict_classes}")
+        vacuity.append(f"a verdict class was never exercised: {verdict_classes}")
+    if selftest == 0 or missed:
+        vacuity.append(f"monitor self-test: {selftest} corrupted traces (a field variant served by its base's pool) "
+                       f"submitted, {missed} not rejected with SharedAcrossSettings: "
+                       f"{[o['selftest_missed'][:3] for o in outs if o['selftest_missed']][:3]}")
     for sig in kd:
         if not any(v.startswith("known:") and sig in v for v in by_verdict):
             rep.drift.append(f"recorded deviation {sig} is enabled in the Model but no real trace exhibited it")
@@ -680,7 +859,10 @@ def run(rep):
             by_verdict[row["verdict"]] = by_verdict.get(row["verdict"], 0) + 1
     rep.extra.update({"scenarios_replayed": replayed, "stage3_expectation_mismatches": stage3_diff,
                       "emitted_tally": tally, "random_traces": sum(len(o["rows"]) for o in routs), "random_tally": rtally,
-                      "tlc_verdicts": by_verdict, "rules_verdict_classes_over_emitted_pairs": verdict_classes})
+                      "tlc_verdicts": by_verdict, "rules_verdict_classes_over_emitted_pairs": verdict_classes,
+                      "keywords_with_differing_pair": len(differing),
+                      "structured_field_variants_vs_base": len(variants_seen),
+                      "monitor_selftest_corrupted_traces_rejected": selftest})
     for o in outs[:1]:
         for row in o["rows"][:3]:
             rep.sample({"scenario": row["sc"], "expected": row["exp"], "observed": row["obs"], "tlc_verdict": row["verdict"]}, cap=3)
@@ -688,6 +870,8 @@ def run(rep):
         for row in o["rows"][:2]:
             rep.sample({"scenario": row["sc"], "observed": row["obs"], "tlc_verdict": row["verdict"]}, cap=5)
     rep.exhaustive = True
+    if vacuity and not rep.violations:
+        raise tlc.MachineryError("; ".join(vacuity))
 
 
 def replay(rep, path):
